@@ -3,6 +3,7 @@
 D=$(realpath "$1"); ID=$2; TIER=${3:-quick}
 cd /repo || exit 2
 [ -z "$(git status --porcelain)" ] || { echo "/repo not clean"; exit 2; }
+trap 'cd /repo && git reset -q && git checkout -q HEAD -- . && git clean -fdq' EXIT
 git apply --3way "$D/patch.diff" >/dev/null 2>&1 || { echo "patch does not apply"; git checkout -q HEAD -- .; exit 2; }
 (cd /verif && VERIF_OUT=/dev/shm/verif-try ./vcheck $ID $TIER) > /tmp/try_seed.$$.log 2>&1; rc=$?
 git checkout -q HEAD -- . ; git clean -fdq
